@@ -181,6 +181,10 @@ def shard(i, n, nprog, nfuzz):
             progs.append((f'generated:{j}', src))
     for origin, src in progs:
         r = rng(PROP, 'faults', origin)
+        # "an otherwise valid program": faults are only injected into programs the pipeline accepts
+        if w.pipe(src, annotate=False).get('k') != 'ok':
+            part.count('base-program-not-accepted')
+            continue
         for li in code_lines(src):
             for kind in ('lexical', 'syntactic', 'type', 'truncation'):
                 k += 1
